@@ -3,9 +3,12 @@ C19 — pruning removes only old block bodies and never breaks the node.
 
 Theorems about `prune` (`Manager.PruneBlocks`, as repaired: the height is clamped to tip+1) and
 about resubmission of pruned blocks (`AddBlocks`, as repaired: a pruned block is skipped) in the
-model `Verif/Model/Chain.lean`.  Tied to the code by `harness/c19`.
+model `Verif/Model/Chain.lean`; the pruned-node invariant `PInv` over any interleaving of
+submissions and prunes (a failed reorg is always rolled back, errors change nothing); the
+simulation of the unpruned node (`pruned_simulates_unpruned`).  Tied to the code by `harness/c19`.
 -/
 import Verif.Lemmas.Prune
+import Verif.Lemmas.PruneSim
 import Verif.Props.C01
 import Verif.Props.C04
 
@@ -155,13 +158,308 @@ theorem best_chain_wellformed_with_pruning {U} (hU : WFU U) (ops : List NodeOp) 
       (runOps U Mgr.init ops).recs i = some ⟨true, true⟩ ∨ (runOps U Mgr.init ops).recs i = some ⟨false, false⟩ :=
   ⟨(winv_reachable hU ops).chain, (winv_reachable hU ops).bestrec⟩
 
-/-- TARGET (not yet proved): with pruning a failed reorg is still always rolled back, i.e.
-`rollbackFailed` is unreachable as well.  The argument needs the minimality of the meeting point
-`reorgPath` finds (the rollback re-applies exactly the blocks the failed attempt reverted, which
-all still have bodies); today this is checked by the correspondence/oracle of `harness/c19` only. -/
-def rollback_never_fails_with_pruning_full : Prop :=
-  ∀ (U : Nat → Blk), WFU U → ∀ (ops : List NodeOp) (batch : List Nat),
-    (addBlocks U (runOps U Mgr.init ops) batch).2 ≠ some .rollbackFailed
+/-! ### the pruned-node invariant `PInv` and the rollback of failed reorgs -/
+
+/-- the pruning frontier after a run: `PruneBlocks(h)` lifts it to `max p (min h (tip+1))`, block
+submissions leave it where it is -/
+def frontierOps (U : Nat → Blk) : Mgr → Nat → List NodeOp → Nat
+  | _, p, [] => p
+  | m, p, .add batch :: ops => frontierOps U (addBlocks U m batch).1 p ops
+  | m, p, .prune h :: ops => frontierOps U (prune m h) (max p (min h m.best.length)) ops
+
+/-- the frontier of a node started from genesis -/
+def frontier (U : Nat → Blk) (ops : List NodeOp) : Nat := frontierOps U Mgr.init 0 ops
+
+/-- **the pruned-node invariant holds after any interleaving of submissions and prunes**, with the
+frontier computed by `frontierOps`: the best-chain block at height `k` is header-only iff `k` is
+below the frontier and fully stored (body + supplement) otherwise, every other record has a
+body, a stored supplement means a validated body, the frontier is at most `tip height + 1` -/
+theorem pinv_reachable {U} (hU : WFU U) (ops : List NodeOp) :
+    PInv U (runOps U Mgr.init ops) (frontier U ops) := by
+  suffices h : ∀ m p, PInv U m p → PInv U (runOps U m ops) (frontierOps U m p ops) from
+    h _ _ (inv_init hU).toPInv
+  induction ops with
+  | nil => intro m p h; exact h
+  | cons op ops ih =>
+    intro m p h
+    cases op with
+    | add batch => exact ih _ _ (addBlocks_p hU h batch).1
+    | prune height => exact ih _ _ (prune_p h height)
+
+/-- an unpruned node satisfies the invariant with frontier 0 -/
+theorem pinv_of_unpruned {U} (hU : WFU U) (hist : List (List Nat)) :
+    PInv U (C01.run U Mgr.init hist) 0 := (C01.inv_reachable hU hist).toPInv
+
+/-- **exactly the best-chain blocks below the frontier have lost their body**, in every reachable
+state of a pruning node; and the frontier never passes the tip -/
+theorem frontier_exact {U} (hU : WFU U) (ops : List NodeOp) (k i : Nat)
+    (hk : (runOps U Mgr.init ops).bestAt k = some i) :
+    (((runOps U Mgr.init ops).block i = none) ↔ k < frontier U ops) ∧
+    (((runOps U Mgr.init ops).block i = some true) ↔ frontier U ops ≤ k) ∧
+    frontier U ops ≤ (runOps U Mgr.init ops).tipHeight + 1 := by
+  have h := pinv_reachable hU ops
+  obtain ⟨r1, r2, _⟩ := h.bestAt_rec hk
+  have hf := h.frontier
+  have hlen : (runOps U Mgr.init ops).best.length ≠ 0 := by have := h.chain.ne_nil; simpa using this
+  refine ⟨⟨?_, fun hlt => by simp [Mgr.block, r1 hlt]⟩, ⟨?_, fun hle => by simp [Mgr.block, r2 hle]⟩, by simp [Mgr.tipHeight]; omega⟩
+  · intro hnone
+    apply Nat.lt_of_not_le
+    intro hle
+    simp [Mgr.block, r2 hle] at hnone
+  · intro hsome
+    apply Nat.le_of_not_lt
+    intro hlt
+    simp [Mgr.block, r1 hlt] at hsome
+
+/-- **`MinReorgIndex` reports the frontier**: it is the best-chain block at height
+`min tipHeight frontier` -/
+theorem minReorgIndex_is_frontier {U} (hU : WFU U) (ops : List NodeOp) :
+    (runOps U Mgr.init ops).bestAt (min (runOps U Mgr.init ops).tipHeight (frontier U ops)) =
+      some (minReorgIndex (runOps U Mgr.init ops)) ∧
+    (U (minReorgIndex (runOps U Mgr.init ops))).height =
+      min (runOps U Mgr.init ops).tipHeight (frontier U ops) :=
+  minReorgIndex_p (pinv_reachable hU ops)
+
+/-- **`reorgPath` meets at the first common ancestor** (restated from the lemma file so that it is
+audited with the property): `na = da + n`, `nb = db + n`, one of `da`, `db` is 0, both pointers are
+at the same height after phases 1/2, and all `n` pairs visited in phase 3 before the meeting
+differ; hence no common ancestor is reachable with fewer steps.  Holds on pruned nodes too
+(`reorgPath` reads headers only). -/
+theorem reorgPath_minimal {U} (hU : WFU U) (ops : List NodeOp) {a b : Nat}
+    (ha : (runOps U Mgr.init ops).states a = true) (hb : (runOps U Mgr.init ops).states b = true) :
+    ∃ na nb, na ≤ (U a).height ∧ nb ≤ (U b).height ∧
+      reorgPath U (runOps U Mgr.init ops) a b none =
+        .ok ((List.range na).map (fun k => anc U k a), ((List.range nb).map (fun k => anc U k b)).reverse) ∧
+      anc U na a = anc U nb b ∧
+      (∃ da db n, na = da + n ∧ nb = db + n ∧ (da = 0 ∨ db = 0) ∧
+        (U a).height - da = (U b).height - db ∧ ∀ k, k < n → anc U (da + k) a ≠ anc U (db + k) b) ∧
+      ∀ i k, i ≤ (U a).height → k ≤ (U b).height → anc U i a = anc U k b → na ≤ i ∧ nb ≤ k := by
+  have hc := (pinv_reachable hU ops).core
+  obtain ⟨na, nb, h1, h2, h3, h4, h5⟩ := reorgPath_spec_min hc ha hb
+  obtain ⟨na', nb', _, _, h3', _, _, h6⟩ := reorgPath_least hc ha hb
+  have e : na' = na ∧ nb' = nb := by
+    rw [h3] at h3'
+    have e := Except.ok.inj h3'
+    have e1 := congrArg (fun x => x.1.length) e
+    have e2 := congrArg (fun x => x.2.length) e
+    simp at e1 e2
+    omega
+  obtain ⟨rfl, rfl⟩ := e
+  exact ⟨na', nb', h1, h2, h3, h4, h5, h6⟩
+
+/-- **with pruning a failed reorg is still always rolled back**: after any interleaving of block
+submissions and prunes, `AddBlocks` never answers "failed to revert failed reorg".  (A failed
+attempt — a pruned body among the blocks to revert, an invalid block among those to apply —
+leaves the manager on a tip that shares with the old best chain everything below some block of
+it; the rollback's `reorgPath` is minimal, so the rollback reverts only freshly applied blocks and
+re-applies only blocks the attempt had reverted, all still fully stored.) -/
+theorem rollback_never_fails_with_pruning {U} (hU : WFU U) (ops : List NodeOp) (batch : List Nat) :
+    (addBlocks U (runOps U Mgr.init ops) batch).2 ≠ some .rollbackFailed := by
+  obtain ⟨_, _, h⟩ := addBlocks_p hU (pinv_reachable hU ops) batch
+  rcases h with ⟨h, _⟩ | ⟨h | h | h | h, _⟩ <;> simp [h]
+
+/-- the possible answers of `AddBlocks` on a pruning node -/
+theorem addBlocks_results_with_pruning {U} (hU : WFU U) (ops : List NodeOp) (batch : List Nat) :
+    (addBlocks U (runOps U Mgr.init ops) batch).2 = none ∨
+    (addBlocks U (runOps U Mgr.init ops) batch).2 = some .missingParent ∨
+    (addBlocks U (runOps U Mgr.init ops) batch).2 = some .future ∨
+    (addBlocks U (runOps U Mgr.init ops) batch).2 = some .invalidHeader ∨
+    (addBlocks U (runOps U Mgr.init ops) batch).2 = some .reorgFailed := by
+  obtain ⟨_, _, h⟩ := addBlocks_p hU (pinv_reachable hU ops) batch
+  rcases h with ⟨h, _⟩ | ⟨h | h | h | h, _⟩ <;> simp [h]
+
+/-- **every error leaves the chain exactly as it was**, also on a pruning node: same best chain
+(hence tip and every best-chain query), no notification -/
+theorem error_rolls_back_with_pruning {U} (hU : WFU U) (ops : List NodeOp) (batch : List Nat)
+    (he : (addBlocks U (runOps U Mgr.init ops) batch).2 ≠ none) :
+    (addBlocks U (runOps U Mgr.init ops) batch).1.best = (runOps U Mgr.init ops).best ∧
+    (addBlocks U (runOps U Mgr.init ops) batch).1.notified = (runOps U Mgr.init ops).notified := by
+  obtain ⟨_, _, h⟩ := addBlocks_p hU (pinv_reachable hU ops) batch
+  rcases h with ⟨h, _⟩ | ⟨_, h⟩
+  · exact absurd h he
+  · exact h
+
+/-- **the tip moves only to a sufficiently heavier chain**, with exactly one notification -/
+theorem tip_moves_only_if_heavier_with_pruning {U} (hU : WFU U) (ops : List NodeOp) (batch : List Nat) :
+    let m := runOps U Mgr.init ops
+    let m' := (addBlocks U m batch).1
+    (m'.tip ≠ m.tip → heavier U m'.tip m.tip = true ∧ m'.notified = m.notified + 1) ∧
+    (m'.tip = m.tip → m'.notified = m.notified) := by
+  intro m m'
+  obtain ⟨_, _, h⟩ := addBlocks_p hU (pinv_reachable hU ops) batch
+  have same : ∀ {x : Mgr}, x.best = m.best → x.tip = m.tip := by intro x hx; simp [Mgr.tip, hx]
+  rcases h with ⟨_, ⟨hb, hn⟩ | ⟨hh, hn⟩⟩ | ⟨_, hb, hn⟩
+  · exact ⟨fun hne => absurd (same hb) hne, fun _ => hn⟩
+  · exact ⟨fun _ => ⟨hh, hn⟩, fun he => absurd he (C01.heavier_ne hh)⟩
+  · exact ⟨fun hne => absurd (same hb) hne, fun _ => hn⟩
+
+/-- **every best-chain block at or above the frontier is stored completely and valid** (header,
+body, not from the future); best chain parent-linked from genesis -/
+theorem best_chain_valid_above_frontier {U} (hU : WFU U) (ops : List NodeOp) :
+    Chain U (runOps U Mgr.init ops).best ∧
+    ∀ i ∈ (runOps U Mgr.init ops).best, frontier U ops ≤ (U i).height →
+      (runOps U Mgr.init ops).recs i = some ⟨true, true⟩ ∧
+      (i ≠ 0 → (U i).hdrOk = true ∧ (U i).bodyOk = true ∧ (U i).future = false) := by
+  have h := pinv_reachable hU ops
+  refine ⟨h.chain, fun i hi hle => ?_⟩
+  have hs := h.stored i hi hle
+  refine ⟨hs, fun hne => ?_⟩
+  have hv := h.validHdr i hne (h.recstate i _ hs)
+  exact ⟨hv.1, h.valid i hne hs, hv.2⟩
+
+/-- **a reorg that needs a pruned body fails with an error and changes nothing**: when the fork
+point of the path towards the submitted chain lies more than one block below the frontier, the
+reorg step of `AddBlocks` answers `reorgFailed` and best chain and notifications stay -/
+theorem deep_reorg_fails_cleanly {U} (hU : WFU U) (ops : List NodeOp) {cs na nb : Nat}
+    (hcs : (runOps U Mgr.init ops).states cs = true)
+    (hh : heavier U cs (runOps U Mgr.init ops).tip = true)
+    (hna : na ≤ (U (runOps U Mgr.init ops).tip).height)
+    (hpath : reorgPath U (runOps U Mgr.init ops) (runOps U Mgr.init ops).tip cs none =
+      .ok ((List.range na).map (fun k => anc U k (runOps U Mgr.init ops).tip),
+        ((List.range nb).map (fun k => anc U k cs)).reverse))
+    (hdeep : (U (anc U na (runOps U Mgr.init ops).tip)).height + 1 < frontier U ops) :
+    (maybeReorg U (runOps U Mgr.init ops) cs).2 = some .reorgFailed ∧
+    (maybeReorg U (runOps U Mgr.init ops) cs).1.best = (runOps U Mgr.init ops).best ∧
+    (maybeReorg U (runOps U Mgr.init ops) cs).1.notified = (runOps U Mgr.init ops).notified :=
+  maybeReorg_deep (pinv_reachable hU ops) hcs hh hna hpath hdeep
+
+/-! ### simulation: a pruned node behaves like the unpruned node that saw the same submissions -/
+
+/-- pruning an unpruned node any number of times gives a pruned copy of it -/
+def pruneAll : Mgr → List Nat → Mgr
+  | m, [] => m
+  | m, h :: hs => pruneAll (prune m h) hs
+
+def frontierAll : Mgr → Nat → List Nat → Nat
+  | _, p, [] => p
+  | m, p, h :: hs => frontierAll (prune m h) (max p (min h m.best.length)) hs
+
+/-- **`Sim` is reachable**: after any history of submissions, any sequence of prunes yields a
+pruned copy of the node (same states, best chain, notifications; records equal except that
+best-chain blocks below the frontier are header-only) -/
+theorem sim_reachable {U} (hU : WFU U) (hist : List (List Nat)) (heights : List Nat) :
+    Sim U (pruneAll (C01.run U Mgr.init hist) heights) (C01.run U Mgr.init hist)
+      (frontierAll (C01.run U Mgr.init hist) 0 heights) := by
+  have h0 := Sim.refl (C01.inv_reachable hU hist)
+  generalize C01.run U Mgr.init hist = mu at h0 ⊢
+  suffices h : ∀ mp p, Sim U mp mu p → Sim U (pruneAll mp heights) mu (frontierAll mp p heights) from h _ _ h0
+  induction heights with
+  | nil => intro mp p h; exact h
+  | cons x xs ih => intro mp p h; exact ih _ _ (sim_prune h x)
+
+/-- what `Sim` says about records: equal except on best-chain blocks below the frontier, which are
+header-only on the pruned node and complete on the unpruned one -/
+theorem sim_records {U mp mu p} (hs : Sim U mp mu p) (i : Nat) :
+    (¬ (i ∈ mp.best ∧ (U i).height < p) → mp.recs i = mu.recs i) ∧
+    (i ∈ mp.best → (U i).height < p →
+      mp.recs i = some ⟨false, false⟩ ∧ mu.recs i = some ⟨true, true⟩) ∧
+    mp.states i = mu.states i ∧ mp.best = mu.best ∧ mp.notified = mu.notified :=
+  ⟨hs.recs_eq, hs.recs_pruned, hs.states i, hs.best, hs.notified⟩
+
+/-- **a pruned node simulates the unpruned node**: for every batch, `AddBlocks` on the pruned copy
+either returns the same result as on the unpruned node and the two stay related (same best
+chain, states, notifications; records equal up to pruned bodies), or — only when the reorg the
+unpruned node performs forks off at a height below `frontier - 1`, i.e. strictly below the
+height of the reported `MinReorgIndex` — answers `reorgFailed` and keeps its best chain and
+notification count. -/
+theorem pruned_simulates_unpruned {U} (hU : WFU U) {mp mu : Mgr} {p : Nat} (hs : Sim U mp mu p)
+    (batch : List Nat) :
+    ((addBlocks U mp batch).2 = (addBlocks U mu batch).2 ∧
+      Sim U (addBlocks U mp batch).1 (addBlocks U mu batch).1 p) ∨
+    ((addBlocks U mp batch).2 = some .reorgFailed ∧ (addBlocks U mp batch).1.best = mp.best ∧
+      (addBlocks U mp batch).1.notified = mp.notified ∧
+      ∃ cs na nb, heavier U cs mu.tip = true ∧
+        reorgPath U (addBlocks.go U batch mu mu.tip).1 mu.tip cs none =
+          .ok ((List.range na).map (fun k => anc U k mu.tip), ((List.range nb).map (fun k => anc U k cs)).reverse) ∧
+        anc U na mu.tip = anc U nb cs ∧ (U (anc U na mu.tip)).height + 1 < p ∧
+        (U (anc U na mu.tip)).height < (U (minReorgIndex mp)).height) := by
+  rcases addBlocks_sim hU hs batch with h | ⟨k1, k2, k3, cs, na, nb, k4, k5, k6, k7⟩
+  · exact Or.inl h
+  · right
+    refine ⟨k1, k2, k3, cs, na, nb, k4, k5, k6, k7, ?_⟩
+    have hm := (minReorgIndex_p hs.pinv).2
+    have hf := hs.pinv.frontier
+    rw [hm]
+    simp only [Mgr.tipHeight]
+    omega
+
+/-- in particular: **a reorg whose fork point is at or above `MinReorgIndex` gives the same result
+and the same chain as on the unpruned node** -/
+theorem reorg_above_min_index_same {U} (hU : WFU U) {mp mu : Mgr} {p : Nat} (hs : Sim U mp mu p)
+    (batch : List Nat)
+    (habove : ∀ cs na nb, heavier U cs mu.tip = true →
+      reorgPath U (addBlocks.go U batch mu mu.tip).1 mu.tip cs none =
+        .ok ((List.range na).map (fun k => anc U k mu.tip), ((List.range nb).map (fun k => anc U k cs)).reverse) →
+      (U (minReorgIndex mp)).height ≤ (U (anc U na mu.tip)).height) :
+    (addBlocks U mp batch).2 = (addBlocks U mu batch).2 ∧
+    (addBlocks U mp batch).1.best = (addBlocks U mu batch).1.best ∧
+    (addBlocks U mp batch).1.notified = (addBlocks U mu batch).1.notified ∧
+    Sim U (addBlocks U mp batch).1 (addBlocks U mu batch).1 p := by
+  rcases pruned_simulates_unpruned hU hs batch with ⟨h1, h2⟩ | ⟨_, _, _, cs, na, nb, k4, k5, _, _, k8⟩
+  · exact ⟨h1, h2.best, h2.notified, h2⟩
+  · have := habove cs na nb k4 k5
+    omega
+
+/-- the unpruned twin of a pruning node: same submissions, prunes ignored -/
+def runTwin (U : Nat → Blk) : Mgr → List NodeOp → Mgr
+  | m, [] => m
+  | m, .add batch :: ops => runTwin U (addBlocks U m batch).1 ops
+  | m, .prune _ :: ops => runTwin U m ops
+
+/-- the answers of the submissions of a run -/
+def resOps (U : Nat → Blk) : Mgr → List NodeOp → List (Option Err)
+  | _, [] => []
+  | m, .add batch :: ops => (addBlocks U m batch).2 :: resOps U (addBlocks U m batch).1 ops
+  | m, .prune h :: ops => resOps U (prune m h) ops
+
+def resTwin (U : Nat → Blk) : Mgr → List NodeOp → List (Option Err)
+  | _, [] => []
+  | m, .add batch :: ops => (addBlocks U m batch).2 :: resTwin U (addBlocks U m batch).1 ops
+  | m, .prune _ :: ops => resTwin U m ops
+
+/-- every reorg the unpruned twin performs during the run forks off at or above the height of the
+`MinReorgIndex` the pruning node reports at that moment -/
+def ForksAbove (U : Nat → Blk) : Mgr → Mgr → List NodeOp → Prop
+  | _, _, [] => True
+  | mp, mu, .add batch :: ops =>
+    (∀ cs na nb, heavier U cs mu.tip = true →
+      reorgPath U (addBlocks.go U batch mu mu.tip).1 mu.tip cs none =
+        .ok ((List.range na).map (fun k => anc U k mu.tip), ((List.range nb).map (fun k => anc U k cs)).reverse) →
+      (U (minReorgIndex mp)).height ≤ (U (anc U na mu.tip)).height) ∧
+    ForksAbove U (addBlocks U mp batch).1 (addBlocks U mu batch).1 ops
+  | mp, mu, .prune h :: ops => ForksAbove U (prune mp h) mu ops
+
+/-- **whole runs**: under any interleaving of submissions and prunes in which every reorg forks
+at or above the reported `MinReorgIndex`, the pruning node gives the same answers as its unpruned
+twin and ends as a pruned copy of it (same best chain, states, notifications; records equal up to
+the pruned bodies) -/
+theorem pruned_run_simulates_unpruned {U} (hU : WFU U) (ops : List NodeOp)
+    (habove : ForksAbove U Mgr.init Mgr.init ops) :
+    resOps U Mgr.init ops = resTwin U Mgr.init ops ∧
+    Sim U (runOps U Mgr.init ops) (runTwin U Mgr.init ops) (frontier U ops) := by
+  suffices h : ∀ mp mu p, Sim U mp mu p → ForksAbove U mp mu ops →
+      resOps U mp ops = resTwin U mu ops ∧ Sim U (runOps U mp ops) (runTwin U mu ops) (frontierOps U mp p ops) from
+    h _ _ _ (Sim.refl (inv_init hU)) habove
+  clear habove
+  induction ops with
+  | nil => intro mp mu p hs _; exact ⟨rfl, hs⟩
+  | cons op ops ih =>
+    intro mp mu p hs hab
+    cases op with
+    | add batch =>
+      obtain ⟨h1, h2⟩ := hab
+      obtain ⟨e1, _, _, e4⟩ := reorg_above_min_index_same hU hs batch h1
+      obtain ⟨i1, i2⟩ := ih _ _ p e4 h2
+      exact ⟨by simp only [resOps, resTwin]; rw [e1, i1], i2⟩
+    | prune height => exact ih _ _ _ (sim_prune hs height) hab
+
+theorem Ure_wf : WFU C04.Ure := by
+  refine ⟨rfl, ?_⟩
+  intro b hb
+  match b with
+  | 1 | 2 | 3 | 4 => exact ⟨by decide, by decide⟩
+  | 0 => simp [C04.Ure] at hb
+  | n + 5 => simp [C04.Ure] at hb
 
 /-! ### non-vacuity -/
 
@@ -176,5 +474,55 @@ example : (prune (C01.run C01.Uex Mgr.init [[1, 2], [6]]) 2).block 1 = none := b
 example : (prune (C01.run C01.Uex Mgr.init [[1, 2], [6]]) 2).block 2 = some true := by decide
 example : (prune (C01.run C01.Uex Mgr.init [[1, 2], [6]]) 100).block 6 = none := by decide
 example : minReorgIndex (prune (C01.run C01.Uex Mgr.init [[1, 2], [6]]) 2) = 2 := by decide
+
+-- the frontier after a run, and `PInv` with a non-trivial frontier (from `pinv_reachable`)
+example : frontier C04.Ure [.add [1, 2], .prune 2, .add [1]] = 2 := by decide
+example : frontier C04.Ure [.add [1, 2], .prune 100, .add [1]] = 3 := by decide
+example : PInv C04.Ure (runOps C04.Ure Mgr.init [.add [1, 2], .prune 2, .add [1]]) 2 :=
+  pinv_reachable Ure_wf _
+-- a failed reorg on a pruned node whose apply phase hits an invalid block (C01.Uex: 4 is invalid):
+-- rolled back, not `rollbackFailed`
+example : (addBlocks C01.Uex (runOps C01.Uex Mgr.init [.add [1, 2], .prune 2]) [3, 4, 5]).2 = some .reorgFailed := by decide
+example : (addBlocks C01.Uex (runOps C01.Uex Mgr.init [.add [1, 2], .prune 2]) [3, 4, 5]).1.best = [2, 1, 0] := by decide
+-- a failed reorg whose revert phase hits a pruned body: rolled back as well
+example : (addBlocks C04.Ure (runOps C04.Ure Mgr.init [.add [1, 2], .prune 3]) [3, 4]).2 = some .reorgFailed := by decide
+example : (addBlocks C04.Ure (runOps C04.Ure Mgr.init [.add [1, 2], .prune 3]) [3, 4]).1.best = [2, 1, 0] := by decide
+-- `Sim` with a non-trivial frontier (from `sim_reachable`), the agreeing case and the diverging case
+example : frontierAll (C01.run C04.Ure Mgr.init [[1, 2]]) 0 [2] = 2 := by decide
+example : Sim C04.Ure (pruneAll (C01.run C04.Ure Mgr.init [[1, 2]]) [2]) (C01.run C04.Ure Mgr.init [[1, 2]]) 2 :=
+  sim_reachable Ure_wf [[1, 2]] [2]
+example : (addBlocks C04.Ure (pruneAll (C01.run C04.Ure Mgr.init [[1, 2]]) [2]) [3, 4]).2 = none ∧
+    (addBlocks C04.Ure (C01.run C04.Ure Mgr.init [[1, 2]]) [3, 4]).2 = none ∧
+    (addBlocks C04.Ure (pruneAll (C01.run C04.Ure Mgr.init [[1, 2]]) [2]) [3, 4]).1.best = [4, 3, 1, 0] := by decide
+example : (addBlocks C04.Ure (pruneAll (C01.run C04.Ure Mgr.init [[1, 2]]) [3]) [3, 4]).2 = some .reorgFailed ∧
+    (addBlocks C04.Ure (C01.run C04.Ure Mgr.init [[1, 2]]) [3, 4]).2 = none := by decide
+-- a run with a prune in the middle and a later reorg forking at `MinReorgIndex` satisfies `ForksAbove`
+example : ForksAbove C04.Ure Mgr.init Mgr.init [.add [1, 2], .prune 1, .add [3, 4]] := by
+  have htip : (addBlocks C04.Ure Mgr.init [1, 2]).1.tip = 2 := by decide
+  refine ⟨fun cs na nb _ _ => ?_, fun cs na nb hh hp => ?_, trivial⟩
+  · have : (C04.Ure (minReorgIndex Mgr.init)).height = 0 := by decide
+    omega
+  · have hcs : cs = 4 := by
+      rw [htip] at hh
+      match cs, hh with
+      | 0, hh | 1, hh | 2, hh | 3, hh => exact absurd hh (by decide)
+      | 4, _ => rfl
+      | n + 5, hh => simp [heavier, C04.Ure] at hh
+    subst hcs
+    have e : reorgPath C04.Ure (addBlocks.go C04.Ure [3, 4] (addBlocks C04.Ure Mgr.init [1, 2]).1
+        (addBlocks C04.Ure Mgr.init [1, 2]).1.tip).1 (addBlocks C04.Ure Mgr.init [1, 2]).1.tip 4 none =
+        .ok ([2], [3, 4]) := by rfl
+    rw [e] at hp
+    have hna : na = 1 := by
+      have := congrArg (fun x => x.1.length) (Except.ok.inj hp)
+      simpa using this.symm
+    subst hna
+    decide
+example : resOps C04.Ure Mgr.init [.add [1, 2], .prune 1, .add [3, 4]] = [none, none] := by decide
+example : (runOps C04.Ure Mgr.init [.add [1, 2], .prune 1, .add [3, 4]]).best = [4, 3, 1, 0] := by decide
+-- the diverging case is exactly the one below `MinReorgIndex` (block 2 at height 2; fork point 1 at height 1)
+example : minReorgIndex (pruneAll (C01.run C04.Ure Mgr.init [[1, 2]]) [3]) = 2 := by decide
+example : reorgPath C04.Ure (addBlocks.go C04.Ure [3, 4] (C01.run C04.Ure Mgr.init [[1, 2]]) 2).1 2 4 none =
+    .ok ([2], [3, 4]) := by rfl
 
 end Verif.C19
